@@ -10,7 +10,6 @@ import (
 	"errors"
 	"fmt"
 	"io"
-	"os"
 
 	"github.com/els0r/goProbe/v4/pkg/goDB/encoder"
 	"github.com/els0r/goProbe/v4/pkg/goDB/encoder/encoders"
@@ -233,7 +232,7 @@ func c07(r *sim.R) *sim.Violation {
 	for op := 0; op < nOps; op++ {
 		switch k := t.Draw(8); {
 		case k <= 4 || len(frames) == 0: // Compress
-			data, note := genData(t, os.Getenv("VERIF_C07_NOEMPTY") == "")
+			data, note := genData(t, true)
 			scratch, sk := genScratch(t, prevScratch, len(data))
 			w := &faultWriter{failAfter: -1}
 			if t.Chance(1, 5) {
